@@ -12,7 +12,7 @@ import (
 func init() {
 	register(&propDef{
 		ID:       "C13",
-		Explain:  "Decided for manager.Manager (structural necessary conditions): session typestate of handleUpdates on every path with the loop unrolled (Reset exactly once after a failed Recv and then return of that error, with no Connect/update in between; Connect only once, after the first successful Recv and before the first update; updates only after Connect; no return without a failed Recv and a Reset); the six callbacks are invoked only from functions synchronously reachable from retryMonitor (never across a `go`), whose only entry is the `go retryMonitor` in Add; close(finished) is deferred at retryMonitor's entry with no callback after it and the loop exits only on ctx.Done; Remove = refuse unknown, else cancel -> wait finished -> forget, all under the manager lock; Add refuses duplicates before any effect and starts exactly one monitor per success with a fresh unbuffered finished channel; backoff never stops (MaxElapsedTime=0 before the loop) and the timer is re-armed after every monitor attempt; lock discipline of targets/reconnect, and nothing on the monitor goroutine takes the manager lock before finished is closed. Round-3 addition: the monitor chain does not block on a channel completed only by a goroutine that can be waiting for Manager.mu (transitive wait with Remove, which holds the lock while waiting for finished). Round-4 additions: the delay the retry timer is re-armed with is NextBackOff() of the never-ending policy itself (or of backoff.WithContext bound to the monitor's own context); the connection manager's mutex is released on every path (C16.locked, borrowed). Round-5 addition (borrowed from C16): an entry of the connection manager is cached, identified and forgotten under one key and a failed dial removes the entry and publishes the error - otherwise a failed session is handed the first error for ever instead of being retried. Round-6 addition: every string handed to a Manager callback is the managed target's own name (target.name, or a parameter every caller fills with it), never a name read out of a message.",
+		Explain:  "Decided for manager.Manager (structural necessary conditions): session typestate of handleUpdates on every path with the loop unrolled (Reset exactly once after a failed Recv and then return of that error, with no Connect/update in between; Connect only once, after the first successful Recv and before the first update; updates only after Connect; no return without a failed Recv and a Reset); the six callbacks are invoked only from functions synchronously reachable from retryMonitor (never across a `go`), whose only entry is the `go retryMonitor` in Add; close(finished) is deferred at retryMonitor's entry with no callback after it and the loop exits only on ctx.Done; Remove = refuse unknown, else cancel -> wait finished -> forget, all under the manager lock; Add refuses duplicates before any effect and starts exactly one monitor per success with a fresh unbuffered finished channel; backoff never stops (MaxElapsedTime=0 before the loop) and the timer is re-armed after every monitor attempt; lock discipline of targets/reconnect, and nothing on the monitor goroutine takes the manager lock before finished is closed. Round-3 addition: the monitor chain does not block on a channel completed only by a goroutine that can be waiting for Manager.mu (transitive wait with Remove, which holds the lock while waiting for finished). Round-4 additions: the delay the retry timer is re-armed with is NextBackOff() of the never-ending policy itself (or of backoff.WithContext bound to the monitor's own context); the connection manager's mutex is released on every path (C16.locked, borrowed). Round-5 addition (borrowed from C16): an entry of the connection manager is cached, identified and forgotten under one key and a failed dial removes the entry and publishes the error - otherwise a failed session is handed the first error for ever instead of being retried. Round-6 addition: every string handed to a Manager callback is the managed target's own name (target.name, or a parameter every caller fills with it), never a name read out of a message. Round-7 additions: a receive watchdog of its own per stream (timer created in the activation of handleUpdates, a watcher started there, every Recv preceded by Reset on that timer); the context of a dial stays the caller's (no Background / WithoutCancel), shared with C16.",
 		NotCover: "backoff timing, races between the receive-timeout watcher and a new sub-context, behaviour of grpc streams and of the connection manager (C16)",
 		Run:      runC13,
 	})
@@ -110,6 +110,7 @@ func runC13(c *Ctx) {
 	c.Rule("C13.remove", "Remove: unknown name => error with no cancel/wait/delete; otherwise under m.mu: cancel() then receive from finished then delete(targets, name), nil returned only after the receive")
 	c.Rule("C13.add", "Add: duplicate => error before the map store and before any go; success => exactly one map store and one go retryMonitor under m.mu with a fresh unbuffered finished channel")
 	c.Borrow("C16", map[string]string{"C16.key-agree": "C13.conn-forgotten", "C16.fail": "C13.conn-fail"}, "'failed sessions are retried with backoff for as long as the target is managed': a failed dial must be forgotten by the connection manager under the key it was cached under, or every later attempt is handed the first error without dialling again")
+	ctxFlow(c, "C13.dial-ctx")
 	c.Borrow("C16", map[string]string{"C16.locked": "C13.conn-locks"}, "'failed sessions are retried for as long as the target is managed, and Remove returns': every session attempt and every release goes through the connection manager's mutex - a path that returns with it held blocks all later attempts of every target, and Remove then waits for a monitor that never finishes")
 	c.Rule("C13.retry-forever", "retryMonitor stores the constant 0 into the backoff's MaxElapsedTime before the loop and re-arms the timer (Timer.Reset) after every monitor attempt before selecting again")
 	c.Rule("C13.locks", "Manager.targets only under Manager.mu, target.reconnect only under target.mu, all locks released on all exits, no re-entrant acquisition; no function synchronously reachable from retryMonitor acquires Manager.mu before finished is closed (Remove holds it while waiting)")
@@ -196,6 +197,7 @@ func runC13(c *Ctx) {
 		c.Floor("C13.session/returning-paths", n, 2)
 		c.Floor("C13.session/paths-with-updates", nUpd, 1)
 	}
+	recvWatchdog(c, "C13.recv-watchdog", hu, isRecv)
 	c.Rule("C13.callback-name", "every string handed to a Manager callback (connect, reset, sync, update, connectError, monitorError) is the managed target's own name: the name field of the *target the monitor chain works for, or a string parameter that every caller in package manager fills with it - not a value read out of a received message (a device that labels a notification with another target's name would make an update appear outside that target's session, or after its Remove)")
 	// ---- callback owner
 	{
@@ -831,7 +833,6 @@ func backoffDelayOK(v ssa.Value, ctxParam ssa.Value, d int) (bool, string) {
 	}
 	return false, "delay is " + Expr(v) + ", not the next delay of the backoff policy"
 }
-
 
 // ownName: v is the name of the target a monitor chain function works for - target.name, or a string
 // parameter that all callers in the package fill with such a value.
